@@ -563,7 +563,7 @@ func init() {
 		ID: "C10", Level: "exploration", Variant: "I", Design: "DESIGN.md §5 C10",
 		Rule:      "Each run draws a model of one document kind (.dsc, .changes, debian/control with 1..4 binaries, Packages with 1..5 stanzas, Sources with 1..4 stanzas), renders it with an independent renderer in the layout dpkg-dev/apt write (comma and space lists single-line or folded, uploaders with UTF-8 names, file lists as leading-newline blocks of 'hash size [section priority] name', dependency fields single-line or folded, unknown fields, comments and 1..2 separating blank lines in debian/control), and parses it through the typed entry point over a simulated stream wrapped in a caller bufio.Reader of 16, 64, 200, 4096 or 65536 bytes, or through the *File entry point on the simulated file system. One sixth of the runs inject EIO at byte k. Every typed field and derived accessor is compared with the model.",
 		Run:       runC10,
-		QuickRuns: 120000, QuickSecs: 40, ThoroughRuns: 4_000_000, ThoroughSecs: 900,
+		QuickRuns: 300000, QuickSecs: 40, ThoroughRuns: 4_000_000, ThoroughSecs: 900,
 		Components: map[string]interface{}{
 			"real_instrumented": []string{"pault.ag/go/debian/control (ParseDsc[File], ParseChanges[File], ParseControl[File], ParseBinaryIndex, ParseSourceIndex, struct tags, FileHash parsers, accessors)", "pault.ag/go/debian/dependency, version"},
 			"stub":              []string{"simio.Reader + caller bufio.Reader size knob", "verifsim/simos for the *File entry points"},
